@@ -132,6 +132,10 @@ type c07Conf struct {
 	CovertBlocklist  []string `json:"covert_blocklist,omitempty"`
 	CovertAllowlist  []string `json:"covert_allowlist,omitempty"`
 	Share            bool     `json:"share"`
+	// how the peer-station API stand-in treats a request: "" / "200", "500", "read-then-close"
+	// (takes the request, then drops the connection), "close-at-once" (drops the connection without
+	// reading the body), "garbage" (takes the request, answers something that is not HTTP)
+	Peer string `json:"peer,omitempty"`
 }
 
 type c07Case struct {
@@ -449,6 +453,9 @@ func c07Gen(rt *rapid.T, mode c07Mode) c07Case {
 		cf.CovertAllowlist = rapid.SampledFrom(c07CovertAllowlists).Draw(rt, "cal")
 	}
 	cf.Share = rapid.IntRange(0, 2).Draw(rt, "share") != 0
+	if cf.Share {
+		cf.Peer = rapid.SampledFrom([]string{"", "", "500", "read-then-close", "close-at-once", "garbage"}).Draw(rt, "peer")
+	}
 
 	c.Live = c07Pick(rt, "live", p, []string{"notlive", "nil-notlive", "cached-notlive"}, []string{"live", "cached-live", "live-othererr"})
 	c.Repeat = rapid.IntRange(0, 3).Draw(rt, "repeat") == 0
@@ -618,6 +625,7 @@ type c07Env struct {
 	srv    *httptest.Server
 	shMu   sync.Mutex
 	shares [][]byte
+	peer   string
 	// realDetector leaves the registry's own sendToDetector hooks in place (C10)
 	realDetector bool
 	// known, if set, replaces c07KnownGens: the generations of the subnet file that was loaded last
@@ -638,13 +646,7 @@ func c07NewEnv(tb testing.TB, realDetector bool) *c07Env {
 	}
 	e.all[pb.TransportType_DTLS] = c07UDP{}
 	e.rm.connectingStats = c07NopStats{}
-	e.srv = httptest.NewServer(http.HandlerFunc(func(w http.ResponseWriter, r *http.Request) {
-		b, _ := io.ReadAll(r.Body)
-		e.shMu.Lock()
-		e.shares = append(e.shares, b)
-		e.shMu.Unlock()
-		w.WriteHeader(http.StatusOK)
-	}))
+	e.srv = httptest.NewServer(http.HandlerFunc(e.peerHandler))
 	tb.Cleanup(e.srv.Close)
 	return e
 }
@@ -690,15 +692,49 @@ func c07NewEnvProd(tb testing.TB, stationToml string, realDetector bool) *c07Env
 	e := &c07Env{vEnv: ve, realDetector: realDetector, prodRegistry: rm.registeredDecoys}
 	e.all = map[pb.TransportType]Transport{pb.TransportType_Min: min.Transport{}, pb.TransportType_Obfs4: obfs4.Transport{}, pb.TransportType_Prefix: pt, pb.TransportType_DTLS: c07UDP{}}
 	rm.connectingStats = c07NopStats{}
-	e.srv = httptest.NewServer(http.HandlerFunc(func(w http.ResponseWriter, r *http.Request) {
-		b, _ := io.ReadAll(r.Body)
+	e.srv = httptest.NewServer(http.HandlerFunc(e.peerHandler))
+	tb.Cleanup(e.srv.Close)
+	return e
+}
+
+// peerHandler is the peer-station API stand-in. It records every request body it has read in full
+// (= a registration the peer has been handed) and then behaves as the case says.
+func (e *c07Env) peerHandler(w http.ResponseWriter, r *http.Request) {
+	e.shMu.Lock()
+	mode := e.peer
+	e.shMu.Unlock()
+	drop := func() {
+		if hj, ok := w.(http.Hijacker); ok {
+			if c, _, err := hj.Hijack(); err == nil {
+				c.Close()
+			}
+		}
+	}
+	if mode == "close-at-once" {
+		drop()
+		return
+	}
+	b, err := io.ReadAll(r.Body)
+	if err == nil {
 		e.shMu.Lock()
 		e.shares = append(e.shares, b)
 		e.shMu.Unlock()
+	}
+	switch mode {
+	case "500":
+		w.WriteHeader(http.StatusInternalServerError)
+	case "read-then-close":
+		drop()
+	case "garbage":
+		if hj, ok := w.(http.Hijacker); ok {
+			if c, _, err := hj.Hijack(); err == nil {
+				_, _ = c.Write([]byte("this is not HTTP\r\n\r\n"))
+				c.Close()
+			}
+		}
+	default:
 		w.WriteHeader(http.StatusOK)
-	}))
-	tb.Cleanup(e.srv.Close)
-	return e
+	}
 }
 
 func (e *c07Env) Shares() [][]byte {
@@ -769,6 +805,7 @@ func (e *c07Env) apply(cf c07Conf, live string) {
 	e.mu.Unlock()
 	e.shMu.Lock()
 	e.shares = nil
+	e.peer = cf.Peer
 	e.shMu.Unlock()
 	e.logs.mu.Lock()
 	e.logs.b.Reset()
